@@ -432,6 +432,13 @@ func c08Conservation(r *verdict.Run, e *emu, kind string, nconn, nops int, rng *
 		for c := 0; c < nconn; c++ {
 			wg.Add(1)
 			go worker(c, func(cn *wire.Conn, i int) bool {
+				if i%40 == 0 {
+					// a transaction and an introspection command in between: whatever they leave behind on the connection or
+					// in the data store (lock ownership, ids) must not weaken the mutual exclusion of the plain commands after them
+					if _, err := cn.Pipeline([][]string{{"MULTI"}, {"GET", "cnt"}, {"EXEC"}, {"CLIENT", "LIST"}, {"CLIENT", "INFO"}}); err != nil {
+						return false
+					}
+				}
 				d := int64(1 + (i+c)%3)
 				var v resp.Value
 				var err error
